@@ -430,7 +430,7 @@ func c06ClosesPubSub(c *Check, P string, r *RouterRoles2) {
 	}
 	W := r.Watcher
 	var subCloses []ssa.Instruction
-	for _, f := range WithAnon(W) {
+	for _, f := range append(WithAnon(W), sameReceiverCallees(W)...) {
 		for _, cl := range CallsTo(f, nSubClose) {
 			if AllOrigins(Receiver(cl), IsFieldLoad(r.HSub)) {
 				subCloses = append(subCloses, cl)
@@ -465,7 +465,19 @@ func (r *RouterRoles2) subCloseSitesIn(W *ssa.Function) []ssa.Instruction {
 			out = append(out, cl)
 			continue
 		}
-		if f := FuncOfValue(firstOrigin(cl.Common().Value)); f != nil && f.Parent() == W {
+		f := FuncOfValue(firstOrigin(cl.Common().Value))
+		if f != nil && f.Parent() != W {
+			f = nil
+		}
+		if f == nil {
+			// a private method of the same handler value does as well as a local literal
+			for _, g := range sameReceiverCallees(W) {
+				if CalleeFn(cl.Common()) == g {
+					f = g
+				}
+			}
+		}
+		if f != nil {
 			if _, isGo := cl.(*ssa.Go); isGo {
 				continue
 			}
@@ -571,4 +583,29 @@ func c06NotBypassed(c *Check, P string, r *RouterRoles2) {
 	}
 	c.Report(!bypass, P+".O7", "CLOSE-NOT-BYPASSED", W, W.Pos(), "close watcher",
 		"when the router is closing the watcher cannot leave without closing the subscriber: every path that skips subscriber.Close() has polled the closing signal and found it unset (or the skipping case cannot be triggered by Close)", wit...)
+}
+
+// sameReceiverCallees lists the private methods that fn calls synchronously on
+// its own receiver (one level): `h.closeSubscriber()` inside a method of h.
+func sameReceiverCallees(fn *ssa.Function) []*ssa.Function {
+	if fn == nil || fn.Signature.Recv() == nil || len(fn.Params) == 0 {
+		return nil
+	}
+	var out []*ssa.Function
+	seen := map[*ssa.Function]bool{}
+	for _, cl := range CallsIn(fn) {
+		call, ok := cl.(*ssa.Call)
+		if !ok {
+			continue
+		}
+		cal := CalleeFn(&call.Call)
+		if cal == nil || cal == fn || cal.Pkg != fn.Pkg || cal.Signature.Recv() == nil || len(cal.Blocks) == 0 || cal.Object() == nil || cal.Object().Exported() || seen[cal] {
+			continue
+		}
+		if len(call.Call.Args) > 0 && AllOrigins(call.Call.Args[0], IsParam(fn.Params[0])) {
+			seen[cal] = true
+			out = append(out, cal)
+		}
+	}
+	return out
 }
